@@ -98,7 +98,7 @@ def create_lut_tensor(name, values, dtype):
     # int16 lut uses uint32 lut with base + slope
     dtype = DataType.uint32 if dtype == DataType.int16 else dtype
     tens = create_const_tensor(name, [1, 1, 1, sz], dtype, values, TensorPurpose.LUT)
-    tens.equivalence_id = create_equivalence_id(tuple(values))
+    tens.equivalence_id = create_equivalence_id((dtype, tuple(values)))
     return tens
 
 
